@@ -39,7 +39,8 @@ MayRefuse(D, e) ==
                /\ Cardinality(cand) >= 2 /\ \E b \in cand : ~HasKey(D, "created", b)
 
 (* the logged answer is one the transcription with deviations D produces *)
-OkUnder(D, e) ==
+OkUnder(D0, e) ==
+  LET D == IF "DirChildrenCappedByLimit" \in D0 /\ e.mode = "classic" /\ e.limit \in 1..5 THEN D0 \cup {CapToks[e.limit]} ELSE D0 IN
   CASE e.res = "ok" ->
          LET name == SourceName(D, e.tree, e.sort, e.mode)
              cand == Matches(D, e.tree) \cap SourceSet(D, name, e.tree)
@@ -60,7 +61,7 @@ Report(e) ==
       name == SourceName({}, e.tree, e.sort, e.mode)
       s == OrdSort(e.sort)
       full == e.limit = 0 \/ Len(e.out) < e.limit
-      expl == {D \in (SUBSET AllDevs) \ {{}} : OkUnder(D, e)}
+      expl == {D \in {X \in SUBSET AllDevs : Cardinality(X) \in {1, 2}} : OkUnder(D, e)}
       minexpl == {D \in expl : \A D2 \in expl : Cardinality(D) <= Cardinality(D2)}
   IN [mode |-> e.mode, sort |-> e.sort, res |-> e.res, class |-> e.class, source |-> e.source, expSource |-> name,
       uncovered |-> {Class(b) : b \in M0 \ SourceSet({}, e.source, e.tree)},
